@@ -37,8 +37,36 @@ def run_seeded(meta_path, prop):
     finally:
         shutil.rmtree(scratch, ignore_errors=True); shutil.rmtree(out, ignore_errors=True)
 
+def controls(prop):
+    """Quick tier: one seeded variant per rule must still be reported (a rule that no longer fires on its
+    control has gone blind); stale controls (anchor text edited away) are skipped."""
+    t0 = time.time()
+    picked = {}
+    for v in V.load_corpus():
+        if v["prop"] == prop and v["kind"] == "seeded" and v.get("rule") and v["rule"] not in picked:
+            picked[v["rule"]] = v
+    with concurrent.futures.ThreadPoolExecutor(max_workers=8) as ex:
+        results = list(ex.map(lambda v: V.run_variant(v, False, False), picked.values()))
+    fired = [r["rule"] for r in results if r["status"] == "killed"]
+    blind = [r["rule"] + ":" + r["name"] for r in results if r["status"] == "MISSED"]
+    skipped = [r["rule"] + ":" + r["name"] for r in results if r["status"] not in ("killed", "MISSED")]
+    evp = os.path.join(VERIF, "evidence", prop + ".json")
+    try:
+        ev = json.load(open(evp))
+        ev["coverage"]["controls"] = dict(rules_with_control=len(picked), fired=sorted(fired), blind=blind, skipped=skipped, wall_s=round(time.time() - t0, 1),
+            note="per rule one seeded variant of the current tree is analysed in a scratch copy and must be reported")
+        json.dump(ev, open(evp, "w"), indent=1)
+    except Exception as e:
+        print("controls: cannot update evidence:", e)
+    print(f"controls {prop}: {len(fired)}/{len(picked)} rule controls fired, {len(skipped)} skipped, {round(time.time()-t0,1)}s")
+    for b in blind:
+        print(f"CHECKER-ERROR control variant not reported: {prop}/{b}")
+    return 3 if blind else 0
+
 def main():
     prop = sys.argv[1]
+    if len(sys.argv) > 2 and sys.argv[2] == "--controls":
+        sys.exit(controls(prop))
     t0 = time.time()
     vs = [v for v in V.load_corpus() if v["prop"] == prop]
     results = []
